@@ -89,7 +89,11 @@ func regCmd(args []string) error {
 			return fmt.Errorf("stack %q: %v %q", sc.Stack, err, rest)
 		}
 		defer env.close()
-		w := &world{cat: cat, top: top, writers: map[string]BlobWriterT{}, ids: map[string]string{}, out: enc, rec: rec, quiesce: env.quiesce, setOp: env.curOp.Store}
+		srvURL := ""
+		if strings.HasPrefix(strings.TrimSpace(sc.Stack), "http") && env.singlePost {
+			srvURL = env.serverURL
+		}
+		w := &world{serverURL: srvURL, cat: cat, top: top, writers: map[string]BlobWriterT{}, ids: map[string]string{}, out: enc, rec: rec, quiesce: env.quiesce, setOp: env.curOp.Store}
 		if *snap {
 			for _, m := range env.mems {
 				w.snapAll = append(w.snapAll, m)
